@@ -322,6 +322,22 @@ Definition ret_one (g : gv) : jobs :=
 (* no result: undefined; one: the value; several: an array of them *)
 Definition ret_values (l : list gv) : list jobs := map ret_one l.
 
+(* results kept over a history of calls.  A nil error comes back as undefined, a
+   non-nil error (written GVPtr (GVStr msg) here) as an object whose Error()
+   gives msg.  Call number j of the history returns row (nth j calls) of the
+   table; whatever is called afterwards, the value kept from call j still
+   shows that row. *)
+Definition ret_one_h (g : gv) : jobs :=
+  match g with
+  | GVNil => JoUndef
+  | GVPtr (GVStr u) => JoStr u
+  | _ => ret_one g
+  end.
+Definition ret_seen (row : list gv) : list jobs :=
+  match row with [] => [JoUndef] | _ => map ret_one_h row end.
+Definition ret_hist (rows : list (list gv)) (calls : list Z) : list (list jobs) :=
+  map (fun i => ret_seen (nth (Z.to_nat i) rows [])) calls.
+
 (* ---- re-entrancy: script code that runs while the arguments of a call are
    being converted (toString of an object given for a string parameter, a
    getter read while a map / struct / slice parameter is built) may call
